@@ -64,6 +64,12 @@ func c14Case(c *caseCtx) {
 	coef := pickv(c14Coefs, 0.001, 0.999)
 	mn := pickv(c14Bounds, 0, 1)
 	mx := pickv(c14Bounds, 0, 1)
+	if r.Intn(5) == 0 {
+		// decimal parameters: sums like 10 x 0.1 land a few ulps beside the bound
+		coef = []float64{0.1, 0.2, 0.3, 0.05, 0.15, 0.35, 0.075, 0.9, 0.7}[r.Intn(9)]
+		mn = []float64{0, 0.1, 0.2, 0.25, 0.3, 0.7}[r.Intn(6)]
+		mx = []float64{1, 0.9, 0.8, 0.6}[r.Intn(4)]
+	}
 	if r.Intn(10) < 7 && mn > mx {
 		mn, mx = mx, mn // most cases: a non-empty series
 	}
